@@ -152,7 +152,15 @@ def sweep(ctx, armed_call=None):
     """Q5: classify every ordering call in the package."""
     rep, m = ctx.rep, ctx.model
     seen = []
+    # scope: everything that can influence the order or content of a result item (per-row closure + exporters) plus the
+    # functions already classified; an ordering call elsewhere in the package cannot reorder the closest-genomes list
+    from .. import effects
+    scope = effects.closure(m, ['gambit.query.query', 'gambit.query.get_result_item'], method_modules={'gambit.db.models', 'gambit.classify', 'gambit.query', 'gambit.results'})
+    scope |= {q for q in m.functions if q.startswith('gambit.results.')} | {k[0] for k in EXEMPT} | {k[0] for k in ARMED}
+    rep.info['ordering_sweep_scope'] = len(scope)
     for fi, call in m.iter_calls(kinds=('py',)):
+        if fi.qualname not in scope and fi.qualname.rsplit('.', 1)[0] not in scope:
+            continue
         name = callee_attr(call)
         if name not in SWEEP_NAMES:
             continue
